@@ -96,7 +96,8 @@ pub struct Gen {
     max_rows_per_insert: usize,
     allow_long: bool,
     explicit_stream_flush: bool,
-    handles_open: Vec<(u8, String)>,
+    handles_open: Vec<(u8, String, u32, Vec<WStep>)>,
+    avoid_delete_under_handle: bool,
 }
 
 const I16_POOL: [i32; 9] = [0, 1, -1, 2, 7, 32767, -32767, 100, -100];
@@ -673,8 +674,16 @@ impl Gen {
         steps
     }
 
+    fn own_handle_live(&self, name: &str) -> bool {
+        let key = names::stream_key(name);
+        self.handles_open.iter().any(|(_, n, _, _)| names::stream_key(n) == key)
+    }
+
     fn op_wstream(&mut self, allow_odd: bool) -> Option<Op> {
         let name = self.gen_stream_name(allow_odd);
+        if self.own_handle_live(&name) {
+            return None;
+        }
         self.serial += 1;
         let dseed = self.serial;
         let steps = self.gen_wsteps();
@@ -686,6 +695,10 @@ impl Gen {
 
     fn op_rstream(&mut self, allow_odd: bool) -> Option<Op> {
         let name = self.gen_stream_name(allow_odd);
+        if self.own_handle_live(&name) {
+            // what a reader sees while a writer still buffers is not specified
+            return None;
+        }
         let len = self.model.streams.get(&names::stream_key(&name)).map(|s| s.data.len()).unwrap_or(0) as u32;
         let mut steps = Vec::new();
         if self.rng.chance(500) {
@@ -706,6 +719,9 @@ impl Gen {
 
     fn op_rmstream(&mut self, allow_odd: bool) -> Option<Op> {
         let name = self.gen_stream_name(allow_odd);
+        if self.own_handle_live(&name) {
+            return None;
+        }
         if self.model.expect_existing_stream(&name) == Expect::Ok {
             self.model.apply_remove_stream(&name);
         }
@@ -996,11 +1012,73 @@ impl Gen {
         }
     }
 
+    // ------------------------------------------------------------ live handles
+
+    fn op_handle(&mut self) -> Option<Op> {
+        let can_open = self.handles_open.len() < 3;
+        if can_open && (self.handles_open.is_empty() || self.rng.chance(300)) {
+            let name = self.gen_stream_name(false);
+            if self.model.expect_write_stream(&name) != Expect::Ok {
+                return None;
+            }
+            let key = names::stream_key(&name);
+            if self.handles_open.iter().any(|(_, n, _, _)| names::stream_key(n) == key) {
+                return None;
+            }
+            let h = (0u8..8).find(|h| !self.handles_open.iter().any(|(x, _, _, _)| x == h))?;
+            self.serial += 1;
+            let dseed = self.serial;
+            self.model.apply_write_stream(&name, dseed, &[]);
+            self.handles_open.push((h, name.clone(), dseed, Vec::new()));
+            return Some(Op::OpenWriter { h, name, dseed });
+        }
+        if self.handles_open.is_empty() {
+            return None;
+        }
+        let i = self.rng.usize_below(self.handles_open.len());
+        if self.rng.chance(250) {
+            let (h, ..) = self.handles_open.remove(i);
+            return Some(Op::DropWriter { h });
+        }
+        let written: u32 = self.handles_open[i].3.iter().map(|s| if let WStep::Write(n) = s { *n } else { 0 }).sum();
+        let step = match self.rng.below(10) {
+            0 => WStep::Flush,
+            1 if written > 0 && !self.handles_open[i].3.iter().any(|s| matches!(s, WStep::Seek(_))) => {
+                WStep::Seek(self.rng.below(written as u64 + 1) as u32)
+            }
+            _ => WStep::Write(*self.rng.pick(&[1u32, 10, 100, 1000, 4096, 4097, 8192, 9000])),
+        };
+        let (h, name, dseed, steps) = &mut self.handles_open[i];
+        steps.push(step.clone());
+        let (h, name, dseed, steps) = (*h, name.clone(), *dseed, steps.clone());
+        self.model.apply_write_stream(&name, dseed, &steps);
+        Some(Op::WriterStep { h, step })
+    }
+
     // ------------------------------------------------------------ main loop
 
     fn one_op(&mut self) {
+        if self.profile == Profile::Handles && self.rng.chance(400) {
+            if let Some(op) = self.op_handle() {
+                self.push(op);
+                return;
+            }
+        }
         let k = self.rng.weighted(&self.weights.clone());
         let odd = matches!(self.profile, Profile::Streams | Profile::Reject);
+        if !self.handles_open.is_empty() {
+            if self.avoid_delete_under_handle && matches!(k, K_DROP | K_RMSTREAM | K_RMSIG) {
+                return;
+            }
+            if k == K_RESTART {
+                // handles are closed before the package is
+                let hs: Vec<u8> = self.handles_open.iter().map(|x| x.0).collect();
+                for h in hs {
+                    self.push(Op::DropWriter { h });
+                }
+                self.handles_open.clear();
+            }
+        }
         let op = match k {
             K_CREATE => {
                 if self.profile == Profile::Schema && self.rng.chance(600) {
@@ -1108,6 +1186,7 @@ pub fn gen_foreign_spec(rng: &mut Prng, big: bool) -> ForeignSpec {
         allow_long: false,
         explicit_stream_flush: false,
         handles_open: Vec::new(),
+        avoid_delete_under_handle: true,
     };
     let validation = rng.chance(800);
     let nt = if big { 1 + rng.usize_below(3) } else { rng.usize_below(6) };
@@ -1318,6 +1397,7 @@ pub fn generate(property: &str, profile: Profile, seed: u64, run: u64) -> Trace 
         allow_long: rng.chance(120),
         explicit_stream_flush: profile == Profile::Script,
         handles_open: Vec::new(),
+        avoid_delete_under_handle: rng.chance(900),
     };
     let n_ops = match profile {
         Profile::Script => 3 + rng.usize_below(6),
@@ -1351,6 +1431,11 @@ pub fn generate(property: &str, profile: Profile, seed: u64, run: u64) -> Trace 
             g.push(Op::Restart { mode: CloseMode::IntoInner, edits: Vec::new() });
         }
         _ => {
+            let hs: Vec<u8> = g.handles_open.iter().map(|x| x.0).collect();
+            for h in hs {
+                g.push(Op::DropWriter { h });
+            }
+            g.handles_open.clear();
             let op = g.op_restart();
             g.push(op);
         }
